@@ -84,6 +84,7 @@ def run(chk):
     chk.info["normal_form_terms"] = nterms
     chk.attempt("O4", lambda: factory_route(chk, P, normal, ref_forms, extra_forms))
     chk.attempt("O5", lambda: registry_route(chk, P, normal, ref_forms, extra_forms))
+    chk.attempt("O5d", lambda: several_declarations(chk, P, normal))
     chk.assume("floating-point evaluation error and overflow of the formulas are not decided (exact real arithmetic)")
     chk.assume("math.exp/log/sqrt denote the real functions")
     chk.assume("ZBL is compared with its _as_sympy sibling only: the manual's entry is schematic (see sa/specs/forms.py)")
@@ -156,6 +157,35 @@ def _form_tuple_hook(P):
         s = i.call(sig, [name, ListV([Const(p) for p in ([] if only_var else params)], "list"), Const(bool(only_var))], {})
         return i.call(pft, [], {"signature": s, "expression": Const("")})
     return hook
+
+
+def several_declarations(chk, P, normal):
+    """one form object used for several declarations ('as.buck 1000 0.3 -1' ... 'as.buck 1000 0.3 -2'): each declaration gets
+    the callable of its own parameters, in whatever order and however often they are asked for"""
+    I = F.make_interp(P)
+    I.hooks["atsim.potentials.config._common:make_potential_form_tuple_from_function"] = _form_tuple_hook(P)
+    mod = P.module("atsim.potentials.config._common")
+    ppf = P.cls("atsim.potentials.config._python_potential_function", "_Python_Potential_Function")
+    pform = P.cls("atsim.potentials.config._potential_form", "Potential_Form")
+    mk = I.module_global(mod, "make_potential_form_tuple_from_function")
+    site = pform.lookup("__call__").site()
+    if "buck" in normal:
+        inst, params, want = normal["buck"]
+        d = I.call(mk, [Const("as.buck"), inst], {})
+        pf = I.instantiate(pform, [I.instantiate(ppf, [d, inst], {}, None)], {}, None)
+        vectors = [(1000, 0.3, -1), (1000, 0.3, -2), (1000, 0.3, 32), (1000.0, 0.3, 32), (0, 1, 2305843009213693951), (0, 1, 0),
+                   (1000, 0.3, -1)]
+        bad = []
+        rsym = ep.sym("r")
+        for vec in vectors:
+            f = I.call(pf, [Num(ep.const(ep.frac(repr(x)))) for x in vec], {})
+            v = I.num(I.call(f, [Num(rsym)], {}))
+            w = ep.substitute(want, dict((p_, ep.const(ep.frac(repr(x)))) for p_, x in zip(params[1:], vec)))
+            if not ep.equal(v, w)[0]:
+                bad.append("as.buck %s -> %r" % (" ".join(repr(x) for x in vec), v))
+        chk.ob("C06.O5", "one 'as.buck' form asked for %d parameter vectors in turn (some differing in one value only, one repeated): "
+                         "each callable is the form at its own parameters" % len(vectors), not bad, site=site, found=bad[:3] or None,
+               expect="buck(r; A, rho, C) of each vector", key="C06.O5|buck|several-declarations")
 
 
 def registry_route(chk, P, normal, ref_forms, extra_forms):
